@@ -27,8 +27,11 @@ class set_impl {
   Partitioner partitioner;
 
   set_impl(ygm::comm &comm) : m_comm(comm), pthis(this) { pthis.check(m_comm); }
-  set_impl(set_impl &&s) noexcept
-      : m_comm(s.m_comm), pthis(this), m_local_set(std::move(s.m_local_set)) {
+  set_impl(set_impl &&s) noexcept : m_comm(s.m_comm), pthis(this) {
+    // Operations still in flight are addressed to s: apply them before its
+    // contents are taken
+    m_comm.barrier();
+    m_local_set = std::move(s.m_local_set);
     pthis.check(m_comm);
   }
 
